@@ -134,61 +134,80 @@ func runOp(fs filesystem.FS, op, root string, patterns []string) error {
 // ---- the bound ------------------------------------------------------------------------------------
 
 type bound struct {
-	N0        int  `json:"max_entries_without_link"`
-	N1        int  `json:"max_entries_with_1_link"`
-	N2        int  `json:"max_entries_with_2_links"` // 0 = no 2-link decorations
-	Rel1      bool `json:"relative_link_texts_with_1_link"`
-	ReadOnly0 bool `json:"read_only_entry_without_link"`
-	ReadOnly1 bool `json:"read_only_entry_with_1_link"`
-	Move      bool `json:"move_between_fs"`
+	N0     int `json:"link_free_max_entries"`                    // both backends, every entry point, read-only and pattern variants
+	N1     int `json:"one_plain_link_max_entries"`               // one link that is not a loop: every entry point, pattern variants
+	N1Full int `json:"one_plain_link_full_variants_max_entries"` // ... plus relative link texts and read-only variants
+	NL     int `json:"one_loop_link_max_entries"`                // one loop link (AN, UP): every sequential entry point, pattern variants
+	NLFull int `json:"one_loop_link_full_variants_max_entries"`  // ... plus relative link texts and read-only variants (-1 = never)
+	N2     int `json:"two_plain_links_max_entries"`              // two links, neither a loop: 4 representative entry points (-1 = never)
+	N2L    int `json:"loop_link_plus_plain_link_max_entries"`    // a loop link and a link that is no directory alias (-1 = never)
 }
 
+// A removal that follows a loop link descends until the kernel refuses the path (40 link traversals), which costs
+// 30-150 ms per case instead of 1 ms: loop decorations get a smaller bound. Two directory aliases of which one is a
+// loop make the number of paths exponential in that depth (2^40 calls): such pairs are not run at all.
 func theBound() bound {
 	if ev.Thorough() {
-		return bound{N0: 5, N1: 5, N2: 4, Rel1: true, ReadOnly0: true, ReadOnly1: true, Move: true}
+		return bound{N0: 5, N1: 5, N1Full: 4, NL: 4, NLFull: 2, N2: 4, N2L: 2}
 	}
-	return bound{N0: 4, N1: 4, N2: 2, Rel1: false, ReadOnly0: true, ReadOnly1: false, Move: true}
+	return bound{N0: 4, N1: 4, N1Full: 2, NL: 2, NLFull: -1, N2: 2, N2L: 1}
 }
+
+func (l Link) loop() bool { return l.Kind == LAncestor || l.Kind == LUp }
+
+func (l Link) dirAlias() bool { return l.Kind == LAncestor || l.Kind == LUp || l.Kind == LDirIn }
 
 type treeSpec struct {
 	Backend string
 	S       shape
 	Links   []Link
+	Full    bool // read-only variants as well
 }
 
 // forEachTree calls fn for every tree of the bound, in a fixed order, with the list of cases to run on it.
 func forEachTree(b bound, fn func(treeIdx int, cases []Case)) {
 	idx := 0
 	emit := func(t treeSpec) {
-		fn(idx, casesOf(b, t))
+		fn(idx, casesOf(t))
 		idx++
 	}
-	for n := 0; n <= b.N0; n++ {
+	maxN := max(b.N0, b.N1, b.NL, b.N2, b.N2L)
+	for n := 0; n <= maxN; n++ {
 		for _, s := range shapes(n) {
-			emit(treeSpec{"os", s, nil})
-			emit(treeSpec{"mem", s, nil})
-		}
-	}
-	for n := 0; n <= b.N1; n++ {
-		for _, s := range shapes(n) {
-			for _, l := range linkChoices(s, b.Rel1) {
-				emit(treeSpec{"os", s, []Link{l}})
+			if n <= b.N0 {
+				emit(treeSpec{"os", s, nil, true})
+				emit(treeSpec{"mem", s, nil, true})
 			}
-		}
-	}
-	for n := 0; n <= b.N2; n++ {
-		for _, s := range shapes(n) {
+			for _, l := range linkChoices(s, true) {
+				lim, full := b.N1, b.N1Full
+				if l.loop() {
+					lim, full = b.NL, b.NLFull
+				}
+				if n > lim || (l.Rel && n > full) {
+					continue
+				}
+				emit(treeSpec{"os", s, []Link{l}, n <= full})
+			}
 			ch := linkChoices(s, false)
 			for i := range ch {
 				for j := i; j < len(ch); j++ {
-					emit(treeSpec{"os", s, []Link{ch[i], ch[j]}})
+					lim := b.N2
+					switch {
+					case (ch[i].loop() && ch[j].dirAlias()) || (ch[j].loop() && ch[i].dirAlias()):
+						continue // exponential, see above
+					case ch[i].loop() || ch[j].loop():
+						lim = b.N2L
+					}
+					if n <= lim {
+						emit(treeSpec{"os", s, []Link{ch[i], ch[j]}, false})
+					}
 				}
 			}
 		}
 	}
 }
 
-func casesOf(b bound, t treeSpec) []Case {
+func casesOf(t treeSpec) []Case {
 	var out []Case
 	n := len(t.S.Kinds)
 	aliasing := false
@@ -206,11 +225,8 @@ func casesOf(b bound, t treeSpec) []Case {
 		if family(op) == "gc" && aliasing {
 			continue // scheduler-dependent, see the header
 		}
-		if op == OpMove && !b.Move {
-			continue
-		}
 		mk(op, 0, 0)
-		if (len(t.Links) == 0 && b.ReadOnly0) || (len(t.Links) == 1 && b.ReadOnly1) {
+		if t.Full {
 			for ro := 1; ro <= n; ro++ {
 				mk(op, 0, ro)
 			}
@@ -239,7 +255,9 @@ type guard struct {
 	resolved []string // calls refused because their parent resolves outside the case directory (cannot happen by construction)
 }
 
-func (g *guard) below(p string) bool { return strings.HasPrefix(p, g.region+"/") && filepath.Clean(p) == p }
+func (g *guard) below(p string) bool {
+	return strings.HasPrefix(p, g.region+"/") && filepath.Clean(p) == p
+}
 
 func (g *guard) Before(op *vfsx.Op) *vfsx.Inject {
 	if !op.Mutates {
@@ -602,21 +620,22 @@ type sampleCase struct {
 }
 
 type part struct {
-	Trees        int64               `json:"trees"`
-	Evaluations  int64               `json:"evaluations"`
-	LinkReached  int64               `json:"link_reached"`
-	Protected    int64               `json:"protected"`
-	LinkFree     int64               `json:"link_free"`
-	Mutated      int64               `json:"mutated"`
-	ByBackend    map[string]int64    `json:"by_backend"`
-	ByOp         map[string]int64    `json:"by_op"`
-	ByLinkKind   map[string]int64    `json:"by_link_kind"`
-	Outcomes     map[string]int64    `json:"outcomes"`
+	Trees        int64                 `json:"trees"`
+	Evaluations  int64                 `json:"evaluations"`
+	LinkReached  int64                 `json:"link_reached"`
+	Nontrivial   int64                 `json:"nontrivial"`
+	Protected    int64                 `json:"protected"`
+	LinkFree     int64                 `json:"link_free"`
+	Mutated      int64                 `json:"mutated"`
+	ByBackend    map[string]int64      `json:"by_backend"`
+	ByOp         map[string]int64      `json:"by_op"`
+	ByLinkKind   map[string]int64      `json:"by_link_kind"`
+	Outcomes     map[string]int64      `json:"outcomes"`
 	Samples      map[string]sampleCase `json:"samples"` // first case of each outcome
-	Sigs         map[string]*sigInfo `json:"sigs"`
-	EngineErrors []string            `json:"engine_errors"`
-	DeadlineHit  bool                `json:"deadline_hit"`
-	Uid          int                 `json:"uid"`
+	Sigs         map[string]*sigInfo   `json:"sigs"`
+	EngineErrors []string              `json:"engine_errors"`
+	DeadlineHit  bool                  `json:"deadline_hit"`
+	Uid          int                   `json:"uid"`
 }
 
 func newPart() *part {
@@ -641,6 +660,9 @@ func (p *part) add(idx int64, c *Case, r caseResult) {
 	}
 	if c.Protect != 0 {
 		p.Protected++
+	}
+	if r.LinkReached || c.Protect != 0 {
+		p.Nontrivial++
 	}
 	if len(c.Links) == 0 {
 		p.LinkFree++
@@ -668,6 +690,7 @@ func (p *part) merge(q *part) {
 	p.Trees += q.Trees
 	p.Evaluations += q.Evaluations
 	p.LinkReached += q.LinkReached
+	p.Nontrivial += q.Nontrivial
 	p.Protected += q.Protected
 	p.LinkFree += q.LinkFree
 	p.Mutated += q.Mutated
@@ -729,6 +752,9 @@ func work(base string, shard, n int) *part {
 		}
 		p.Trees++
 		for k := range cases {
+			if traceCases {
+				fmt.Fprintf(os.Stderr, "%s case %d: %s\n", time.Now().Format("15:04:05.000"), first+int64(k), cases[k].String())
+			}
 			p.add(first+int64(k), &cases[k], r.run(&cases[k]))
 		}
 	})
@@ -738,6 +764,8 @@ func work(base string, shard, n int) *part {
 // ---- coordinator ----------------------------------------------------------------------------------
 
 const unprivileged = 65534
+
+var traceCases = os.Getenv("C04_TRACE") != "" // development aid: print every case before it runs
 
 func TestC04(t *testing.T) {
 	if w := os.Getenv("C04_WORKER"); w != "" {
@@ -912,7 +940,7 @@ func TestC04(t *testing.T) {
 	}
 	b := theBound()
 	rep.Coverage["evaluations"] = total.Evaluations
-	rep.Coverage["distinct_nontrivial"] = total.LinkReached + total.Protected
+	rep.Coverage["distinct_nontrivial"] = total.Nontrivial
 	rep.Coverage["rule"] = "a case counts when the removal code reached the mechanism the property is about: the trace of backend calls contains a call on a symbolic link of the tree or through one (link_reached), or the tree held an entry protected by the exclusion pattern given (protected); every case is a distinct (backend, shape, links, read-only entry, entry point, pattern) tuple"
 	rep.Coverage["cases_link_reached"] = total.LinkReached
 	rep.Coverage["cases_with_protected_entry"] = total.Protected
@@ -923,7 +951,7 @@ func TestC04(t *testing.T) {
 	rep.Coverage["by_entry_point"] = total.ByOp
 	rep.Coverage["by_link_kind"] = total.ByLinkKind
 	rep.Coverage["bound"] = b
-	rep.Coverage["bound_text"] = fmt.Sprintf("all level-order shapes of <=%d entries (no link, both backends; one entry read-only: %v), <=%d entries x every 1-link decoration (relative texts too: %v; one entry read-only: %v), <=%d entries x every unordered pair of link decorations (4 representative entry points); 9 link kinds x every location x every target; 11 entry points; patterns {none, name of one entry or link}", b.N0, b.ReadOnly0, b.N1, b.Rel1, b.ReadOnly1, b.N2)
+	rep.Coverage["bound_text"] = fmt.Sprintf("every level-order shape of: <=%d entries without link (both backends, one entry read-only or none); <=%d entries x every decoration with one non-loop link (<=%d entries: relative link texts and read-only variants too); <=%d entries x every one loop link AN/UP (<=%d: relative / read-only too); <=%d entries x every unordered pair of non-loop links; <=%d entries x {loop link, link that is no directory alias}; 9 link kinds x every location x every target; 11 entry points (4 representative ones for pairs; no garbage collection with aliasing links); patterns {none, name of one entry or link}", b.N0, b.N1, b.N1Full, b.NL, b.NLFull, b.N2, b.N2L)
 	rep.Coverage["exhaustive"] = !total.DeadlineHit && len(errs) == 0 && len(total.EngineErrors) == 0
 	rep.Coverage["distinct_observed_outcomes"] = len(outcomes)
 	rep.Coverage["outcomes"] = total.Outcomes
